@@ -778,6 +778,15 @@ def run_case(case):
         v, t = line.split()
         if t == b"commit" and v not in heads:
             heads.append(v)
+    gl = []
+    if commits_u and rng.random() < 0.25:
+        # graft points (info/grafts), chosen while C git can still read the repository (an idx v3 rewrite may follow) and written after the
+        # acceleration files (C git does not see them: GIT_GRAFT_FILE=/dev/null): a graft replaces the parents of a commit whether or not a
+        # commit-graph also knows that commit
+        for c in rng.sample(commits_u, min(len(commits_u), rng.choice([1, 2, 3]))):
+            anc = [x for x in core.git(["rev-list", c.decode()], cwd=d).stdout.split() if x != c]
+            newp = [] if not anc or rng.random() < 0.4 else rng.sample(anc, min(len(anc), rng.choice([1, 1, 2])))
+            gl.append(b" ".join([c] + newp) + b"\n")
     for a, w in deferred:
         try:
             if write_accel(d, a, w, rng, feats):
@@ -785,6 +794,12 @@ def run_case(case):
                 feats.add("%s-by-%s" % (a, w))
         except Exception as e:
             viol.append({"sig": "C14/writer-raises/%s-by-%s/%s" % (a, w, type(e).__name__), "msg": str(e)[:200]})
+    if gl:
+        gd = os.path.join(d, "info") if os.path.isdir(os.path.join(d, "objects")) else os.path.join(d, ".git", "info")
+        os.makedirs(gd, exist_ok=True)
+        with open(os.path.join(gd, "grafts"), "wb") as f:
+            f.write(b"".join(gl))
+        feats.add("grafts")
     qseed = case["seed"] + "/q"
     for k in PROBE:
         PROBE[k] = 0
